@@ -794,3 +794,191 @@ Proof.
     intro W. apply wfb_iff in W. discriminate.
   - exists [61; 65; 65; 65]. reflexivity.
 Qed.
+
+(* ---------- canonical texts: exactly the encoder's own output ---------- *)
+Lemma rfc_sym_inj v w : v < 64 -> w < 64 -> rfc_sym v = rfc_sym w -> v = w.
+Proof.
+  intros Hv Hw E. pose proof (rfc_val_sym v Hv) as A. rewrite E, (rfc_val_sym w Hw) in A. now injection A.
+Qed.
+
+Lemma full_groups_lengths {A} k (l : list A) : Forall (fun g => length g = k) (full_groups k l).
+Proof.
+  unfold full_groups. apply Forall_forall. intros g Hg. apply filter_In in Hg as [_ Hg].
+  now apply Nat.eqb_eq.
+Qed.
+
+Lemma denote_bytes s : Forall is_byte (denote s).
+Proof.
+  rewrite denote_unfold. unfold bytes_of_bits. apply Forall_forall. intros x Hx.
+  apply in_map_iff in Hx as (g & <- & Hg).
+  pose proof (full_groups_lengths 8 (flat_map sym_bits (filter (fun c => negb (c =? rfc_pad)) s))) as F.
+  rewrite Forall_forall in F. specialize (F g Hg). unfold is_byte.
+  pose proof (val_be_lt g) as L. rewrite F in L. exact L.
+Qed.
+
+Definition sym_bits_of (s : list N) : list bool := flat_map sym_bits (filter (fun c => negb (c =? rfc_pad)) s).
+
+Lemma Canonical_unfold s :
+  Canonical s <-> (forall g, In g (groups 8 (sym_bits_of s)) -> (length g < 8)%nat -> val_be g = 0).
+Proof. reflexivity. Qed.
+
+Lemma sym_bits_of_cons4 a b c d va vb vc vd r :
+  rfc_val a = Some va -> rfc_val b = Some vb -> rfc_val c = Some vc -> rfc_val d = Some vd ->
+  let D := ((va * 64 + vb) * 64 + vc) * 64 + vd in
+  sym_bits_of (a :: b :: c :: d :: r) =
+  bits_be 8 (D / 65536) ++ bits_be 8 (D / 256) ++ bits_be 8 D ++ sym_bits_of r.
+Proof.
+  intros Ea Eb Ec Ed D.
+  destruct (rfc_val_range _ _ Ea) as [Ha _]. destruct (rfc_val_range _ _ Eb) as [Hb _].
+  destruct (rfc_val_range _ _ Ec) as [Hc _]. destruct (rfc_val_range _ _ Ed) as [Hd _].
+  unfold sym_bits_of. cbn [filter].
+  rewrite (rfc_val_not_pad _ _ Ea), (rfc_val_not_pad _ _ Eb), (rfc_val_not_pad _ _ Ec), (rfc_val_not_pad _ _ Ed).
+  cbn [negb flat_map].
+  rewrite (sym_bits_val _ _ Ea), (sym_bits_val _ _ Eb), (sym_bits_val _ _ Ec), (sym_bits_val _ _ Ed).
+  set (R := flat_map sym_bits _).
+  replace (bits_be 6 va ++ bits_be 6 vb ++ bits_be 6 vc ++ bits_be 6 vd ++ R)
+    with ((bits_be 6 va ++ bits_be 6 vb ++ bits_be 6 vc ++ bits_be 6 vd) ++ R) by (now rewrite <- !app_assoc).
+  rewrite bits_4x6_3x8 by assumption. cbv zeta. now rewrite <- !app_assoc.
+Qed.
+
+Lemma canonical_cons4 a b c d va vb vc vd r :
+  rfc_val a = Some va -> rfc_val b = Some vb -> rfc_val c = Some vc -> rfc_val d = Some vd ->
+  (Canonical (a :: b :: c :: d :: r) <-> Canonical r).
+Proof.
+  intros Ea Eb Ec Ed. rewrite !Canonical_unfold.
+  rewrite (sym_bits_of_cons4 _ _ _ _ _ _ _ _ r Ea Eb Ec Ed). cbv zeta.
+  rewrite !groups_app by (lia || apply bits_be_length).
+  split.
+  - intros H g Hg Hl. apply H; [|assumption]. now do 3 right.
+  - intros H g Hg Hl. destruct Hg as [<-|[<-|[<-|Hg]]]; try (rewrite bits_be_length in Hl; lia).
+    now apply H.
+Qed.
+
+Lemma encode_denote_cons4 a b c d va vb vc vd r :
+  rfc_val a = Some va -> rfc_val b = Some vb -> rfc_val c = Some vc -> rfc_val d = Some vd ->
+  encode_spec (denote (a :: b :: c :: d :: r)) = a :: b :: c :: d :: encode_spec (denote r).
+Proof.
+  intros Ea Eb Ec Ed.
+  destruct (rfc_val_range _ _ Ea) as [Ha Sa]. destruct (rfc_val_range _ _ Eb) as [Hb Sb].
+  destruct (rfc_val_range _ _ Ec) as [Hc Sc]. destruct (rfc_val_range _ _ Ed) as [Hd Sd].
+  rewrite (denote_cons4 _ _ _ _ _ _ _ _ r Ea Eb Ec Ed). unfold quad_bytes. cbn [app].
+  rewrite encode_spec_3 by (apply N.mod_lt; discriminate).
+  rewrite <- Sa, <- Sb, <- Sc, <- Sd.
+  f_equal; [f_equal; lia|]. f_equal; [f_equal; lia|]. f_equal; [f_equal; lia|]. f_equal. f_equal; lia.
+Qed.
+
+Lemma canonical_3pad a b c va vb vc :
+  rfc_val a = Some va -> rfc_val b = Some vb -> rfc_val c = Some vc ->
+  (Canonical [a; b; c; rfc_pad] <-> vc mod 4 = 0).
+Proof.
+  intros Ea Eb Ec.
+  destruct (rfc_val_range _ _ Ea) as [Ha _]. destruct (rfc_val_range _ _ Eb) as [Hb _].
+  destruct (rfc_val_range _ _ Ec) as [Hc _].
+  rewrite Canonical_unfold. unfold sym_bits_of. cbn [filter].
+  rewrite (rfc_val_not_pad _ _ Ea), (rfc_val_not_pad _ _ Eb), (rfc_val_not_pad _ _ Ec), N.eqb_refl.
+  cbn [negb flat_map].
+  rewrite (sym_bits_val _ _ Ea), (sym_bits_val _ _ Eb), (sym_bits_val _ _ Ec), app_nil_r.
+  rewrite bits_3x6 by assumption. cbv zeta.
+  rewrite !groups_app by (lia || apply bits_be_length).
+  rewrite groups_short by (try discriminate; rewrite bits_be_length; lia).
+  split.
+  - intro H. specialize (H (bits_be 2 ((va * 64 + vb) * 64 + vc)) ltac:(now do 2 right; left)
+                           ltac:(rewrite bits_be_length; lia)).
+    rewrite val_be_bits_be in H. change (2 ^ N.of_nat 2) with 4 in H. lia.
+  - intros H g [<-|[<-|[<-|[]]]] Hl; try (rewrite bits_be_length in Hl; lia).
+    rewrite val_be_bits_be. change (2 ^ N.of_nat 2) with 4. lia.
+Qed.
+
+Lemma canonical_2pad a b va vb :
+  rfc_val a = Some va -> rfc_val b = Some vb ->
+  (Canonical [a; b; rfc_pad; rfc_pad] <-> vb mod 16 = 0).
+Proof.
+  intros Ea Eb.
+  destruct (rfc_val_range _ _ Ea) as [Ha _]. destruct (rfc_val_range _ _ Eb) as [Hb _].
+  rewrite Canonical_unfold. unfold sym_bits_of. cbn [filter].
+  rewrite (rfc_val_not_pad _ _ Ea), (rfc_val_not_pad _ _ Eb), N.eqb_refl.
+  cbn [negb flat_map].
+  rewrite (sym_bits_val _ _ Ea), (sym_bits_val _ _ Eb), app_nil_r.
+  rewrite bits_2x6 by assumption. cbv zeta.
+  rewrite !groups_app by (lia || apply bits_be_length).
+  rewrite groups_short by (try discriminate; rewrite bits_be_length; lia).
+  split.
+  - intro H. specialize (H (bits_be 4 (va * 64 + vb)) ltac:(now right; left) ltac:(rewrite bits_be_length; lia)).
+    rewrite val_be_bits_be in H. change (2 ^ N.of_nat 4) with 16 in H. lia.
+  - intros H g [<-|[<-|[]]] Hl; try (rewrite bits_be_length in Hl; lia).
+    rewrite val_be_bits_be. change (2 ^ N.of_nat 4) with 16. lia.
+Qed.
+
+Lemma encode_denote_3pad a b c va vb vc :
+  rfc_val a = Some va -> rfc_val b = Some vb -> rfc_val c = Some vc ->
+  (encode_spec (denote [a; b; c; rfc_pad]) = [a; b; c; rfc_pad] <-> vc mod 4 = 0).
+Proof.
+  intros Ea Eb Ec.
+  destruct (rfc_val_range _ _ Ea) as [Ha Sa]. destruct (rfc_val_range _ _ Eb) as [Hb Sb].
+  destruct (rfc_val_range _ _ Ec) as [Hc Sc].
+  rewrite (denote_3pad _ _ _ _ _ _ Ea Eb Ec). cbv zeta.
+  rewrite encode_spec_2 by (apply N.mod_lt; discriminate).
+  set (T := (va * 64 + vb) * 64 + vc).
+  replace ((T / 1024) mod 256 / 4) with va by (subst T; lia).
+  replace (((T / 1024) mod 256) mod 4 * 16 + (T / 4) mod 256 / 16) with vb by (subst T; lia).
+  replace (((T / 4) mod 256) mod 16 * 4) with (vc / 4 * 4) by (subst T; lia).
+  rewrite Sa, Sb. split.
+  - intro E. injection E as E. rewrite <- Sc in E. apply rfc_sym_inj in E; lia.
+  - intro E. replace (vc / 4 * 4) with vc by lia. now rewrite Sc.
+Qed.
+
+Lemma encode_denote_2pad a b va vb :
+  rfc_val a = Some va -> rfc_val b = Some vb ->
+  (encode_spec (denote [a; b; rfc_pad; rfc_pad]) = [a; b; rfc_pad; rfc_pad] <-> vb mod 16 = 0).
+Proof.
+  intros Ea Eb.
+  destruct (rfc_val_range _ _ Ea) as [Ha Sa]. destruct (rfc_val_range _ _ Eb) as [Hb Sb].
+  rewrite (denote_2pad _ _ _ _ Ea Eb).
+  rewrite encode_spec_1 by (apply N.mod_lt; discriminate).
+  set (U := va * 64 + vb).
+  replace ((U / 16) mod 256 / 4) with va by (subst U; lia).
+  replace (((U / 16) mod 256) mod 4 * 16) with (vb / 16 * 16) by (subst U; lia).
+  rewrite Sa. split.
+  - intro E. injection E as E. rewrite <- Sb in E. apply rfc_sym_inj in E; lia.
+  - intro E. replace (vb / 16 * 16) with vb by lia. now rewrite Sb.
+Qed.
+
+Lemma in_alphabet_val c : in_alphabet c = true -> exists v, rfc_val c = Some v.
+Proof. unfold in_alphabet. destruct (rfc_val c) as [v|]; [eauto|discriminate]. Qed.
+
+Lemma canonical_iff_encode s : wfb s = true -> (encode_spec (denote s) = s <-> Canonical s).
+Proof.
+  induction s as [|a|a b|a b c|a b c d r IH] using list_ind4; try discriminate.
+  - intros _. split; [intros _ g []|reflexivity].
+  - destruct r as [|e r'].
+    + cbn [wfb]. intro W. apply andb_true_iff in W as [W Wcd]. apply andb_true_iff in W as [Wa Wb].
+      apply in_alphabet_val in Wa as [va Ea]. apply in_alphabet_val in Wb as [vb Eb].
+      apply orb_true_iff in Wcd as [Wcd|Wcd].
+      * apply andb_true_iff in Wcd as [Wc Wd]. apply in_alphabet_val in Wc as [vc Ec].
+        apply orb_true_iff in Wd as [Wd|Wd].
+        -- apply in_alphabet_val in Wd as [vd Ed].
+           rewrite (encode_denote_cons4 _ _ _ _ _ _ _ _ [] Ea Eb Ec Ed).
+           rewrite (canonical_cons4 _ _ _ _ _ _ _ _ [] Ea Eb Ec Ed).
+           split; [intros _ g []|reflexivity].
+        -- apply N.eqb_eq in Wd. subst d.
+           now rewrite (encode_denote_3pad _ _ _ _ _ _ Ea Eb Ec), (canonical_3pad _ _ _ _ _ _ Ea Eb Ec).
+      * apply andb_true_iff in Wcd as [Wc Wd]. apply N.eqb_eq in Wc, Wd. subst c d.
+        now rewrite (encode_denote_2pad _ _ _ _ Ea Eb), (canonical_2pad _ _ _ _ Ea Eb).
+    + intro W.
+      change (in_alphabet a && in_alphabet b && in_alphabet c && in_alphabet d && wfb (e :: r') = true) in W.
+      apply andb_true_iff in W as [W Wr]. apply andb_true_iff in W as [W Wd].
+      apply andb_true_iff in W as [W Wc]. apply andb_true_iff in W as [Wa Wb].
+      apply in_alphabet_val in Wa as [va Ea]. apply in_alphabet_val in Wb as [vb Eb].
+      apply in_alphabet_val in Wc as [vc Ec]. apply in_alphabet_val in Wd as [vd Ed].
+      rewrite (encode_denote_cons4 _ _ _ _ _ _ _ _ _ Ea Eb Ec Ed).
+      rewrite (canonical_cons4 _ _ _ _ _ _ _ _ _ Ea Eb Ec Ed).
+      rewrite <- (IH Wr). split; [intro E; now injection E|intros ->; reflexivity].
+Qed.
+
+(* among the accepted texts, the canonical ones are exactly the encoder's output *)
+Lemma decode_canonical s b : decode s = Ok b -> (encode b = Ok s <-> Canonical s).
+Proof.
+  rewrite decode_wfb. destruct (wfb s) eqn:W; [|discriminate]. intro H. injection H as <-.
+  rewrite encode_model_spec by apply denote_bytes.
+  rewrite <- (canonical_iff_encode s W). split; [intro E; now injection E|intros ->; reflexivity].
+Qed.
